@@ -21,6 +21,11 @@ Require Import Ctpg.Proofs.PatternLex.
 Require Import Ctpg.Proofs.PatternParse.
 Require Import Ctpg.Proofs.PatternDecode.
 Require Import Ctpg.Proofs.AnalyzeUndeclared.
+Require Import Ctpg.Valid.LRResolved.
+Require Import Ctpg.Proofs.PatternCompleteLR.
+Require Import Ctpg.Proofs.PatternCompleteTrees.
+Require Import Ctpg.Proofs.PatternCompleteTerm.
+Require Import Ctpg.Proofs.PatternComplete.
 From Coq Require Import Permutation.
 
 (* scanning ANY byte string as a pattern, well-formed or not, at any offset, never reads beyond the terminator *)
@@ -70,6 +75,36 @@ Theorem C17_decoder_stays_inside_the_lexeme :
   forall (p : list nat) (i len : nat), lex_at p i = Tok 1 len -> string_view_to_subset_c (lexeme p i len) = Some (string_view_to_subset (lexeme p i len)).
 Proof. exact decoder_in_range. Qed.
 Print Assumptions C17_decoder_stays_inside_the_lexeme.
+
+(* EXACTLY the documented syntax: a byte string gets a meaning iff it scans completely into tokens whose string is derivable in the pattern grammar (and every {n} count is below the model's bound 4096) *)
+Theorem C17_pattern_accepted_iff_in_the_syntax :
+  forall p : list nat, parse_pattern p <> None <-> (exists toks : list (nat * nat * nat), scans p toks /\ derives regex_g (map tok_term toks) /\ counts_ok p toks = true).
+Proof. exact pattern_accepted_iff. Qed.
+Print Assumptions C17_pattern_accepted_iff_in_the_syntax.
+
+(* with the fixed fuel 10*length+20 the pattern parser accepts exactly the derivable token strings and rejects exactly the others: a rejection is never an out-of-fuel artefact *)
+Theorem C17_pattern_syntax_decided :
+  forall p : list nat, ((exists v : rval, the_run p = Accept v) <-> (exists toks : list (nat * nat * nat), scans p toks /\ derives regex_g (map tok_term toks))) /\ (the_run p = Reject <-> ~ (exists toks : list (nat * nat * nat), scans p toks /\ derives regex_g (map tok_term toks))).
+Proof. exact pattern_syntax_decided. Qed.
+Print Assumptions C17_pattern_syntax_decided.
+
+(* the pattern parser terminates on every byte string (potential argument checked cell by cell on the pattern table) *)
+Theorem C17_pattern_parse_terminates :
+  forall (p : list nat) (fuel : nat), 7 * length p + 8 <= fuel -> pattern_run regex_g regex_tb p fuel <> OutOfFuel.
+Proof. exact pattern_parse_terminates. Qed.
+Print Assumptions C17_pattern_parse_terminates.
+
+(* the pattern grammar is ambiguous (alt -> alt | alt); its table is the LR(1) automaton with that conflict resolved to shift *)
+Theorem C17_pattern_table_resolved :
+  validate_resolved regex_g regex_sts regex_tb = true.
+Proof. exact regex_table_validated_resolved. Qed.
+Print Assumptions C17_pattern_table_resolved.
+
+(* the side condition is needed in the MODEL: a{4096} is refused by the mirror's count functor (the real library has no such bound; counts that large are not exercised) *)
+Theorem C17_count_bound_of_the_model_refuted :
+  exists (p : list nat) (toks : list (nat * nat * nat)), scans p toks /\ derives regex_g (map tok_term toks) /\ parse_pattern p = None.
+Proof. exact wellformed_pattern_accepted_refuted. Qed.
+Print Assumptions C17_count_bound_of_the_model_refuted.
 
 (* a rule mentioning a nonterminal or term that is not declared makes rule analysis fail ('string not found') *)
 Theorem C17_undeclared_symbol_rejected :
